@@ -445,7 +445,7 @@ theorem segment_lemma_Fv (e : Expr) (he : Fv e = true) (isFn : Nat → Bool) (c 
   cases hres : Ref.eval n e env rs with
   | ok v rs' =>
     rw [hres] at h
-    obtain ⟨s', r, l, rel⟩ := h
+    obtain ⟨s', r, l, rel, -⟩ := h
     exact ⟨s', rel, l.fn, l.pc, l.data, r⟩
   | err rs' => rw [hres] at h; exact h
   | timeout => trivial
